@@ -187,7 +187,7 @@ func TestC20(t *testing.T) {
 	chk.Sub.Exhaustive = false
 	prof := hx.FullProfile()
 	prof.Tablerow, prof.WSText, prof.Ticks, prof.MaxNodes, prof.BareJumps = true, true, true, 10, true
-	col.Rapid(chk.Sub, env.PerShard(env.Pick(1500, 60000)), func(t *rapid.T) {
+	col.Rapid(chk.Sub, env.PerShard(env.Pick(8000, 80000)), func(t *rapid.T) {
 		p := hx.GenProgram(t, prof)
 		// values that print as several writes or as nothing (arrays with nil / empty tails), at random places
 		for i, n := 0, rapid.IntRange(0, 2).Draw(t, "arrays"); i < n; i++ {
